@@ -549,6 +549,19 @@ func flowOne(p *Program, fn *ssa.Function, site *ssa.Call, e ssa.Value, cfg errF
 					if in != ssa.Instruction(site) && cfg.passThrough != nil && cfg.passThrough(x) {
 						break
 					}
+					// a package function that is handed the pending error (a wrapping / annotating helper) is where the
+					// error goes next, not a sign that it was forgotten; what the helper answers is judged at the return
+					if in != ssa.Instruction(site) {
+						handed := false
+						for _, a := range x.Common().Args {
+							if A[a] || wrapsAlias(a, A) {
+								handed = true
+							}
+						}
+						if g := x.Common().StaticCallee(); handed && g != nil && p.isRepoFunc(g) {
+							break
+						}
+					}
 					if in == ssa.Instruction(site) {
 						label = "the same call (loop)"
 					}
